@@ -122,11 +122,16 @@ func (server *Server) serveConn(conn net.Conn) {
 		})
 	} else {
 		ctx, done := context.WithCancel(context.Background())
-		server.http1ConnChannelListener.SendToChannel(&hack.TLSClientHelloConn{
+		err := server.http1ConnChannelListener.SendToChannel(&hack.TLSClientHelloConn{
 			Done:              done,
 			Conn:              tlsConn,
 			ClientHelloRecord: rec,
 		})
+		if err != nil {
+			// HTTP/1.1 server is shutting down and will never serve
+			// nor close this connection, close it here
+			done()
+		}
 		// wait for the connection to be served by HTTP/1.1 server
 		<-ctx.Done()
 	}
